@@ -15,6 +15,7 @@
 import Core.Lemmas.Judged
 import Core.Lemmas.InjHash
 import Core.Props.C05
+import Core.Props.C02chain
 open Std
 
 set_option maxRecDepth 100000
@@ -154,5 +155,98 @@ theorem C10_chain_yield_rule (env : Env) (cfg : Cfg) (hmin : 1 ≤ cfg.minFee) (
   intro t ht hr o ho hy
   obtain ⟨_, _, _, hyr, _⟩ := hall t ht hr
   exact (agree_verifier_yield_rule _ _ _).mp hyr o ho hy
+
+/-- **C02 (created in an EARLIER block) for every chain, tip included.**  Every input of every ordinary transaction of
+    a block above the first of a reachable chain — the last block included — names an output that a transaction of a
+    STRICTLY earlier block of that same chain created (same id, that output index, that recipient): a block never
+    spends an output of its own transactions, nor one that does not exist. -/
+theorem C02_chain_created_earlier (env : Env) (cfg : Cfg) (hmin : 1 ≤ cfg.minFee) (hinj : Function.Injective env.hash)
+    (ops : List Op) (hw : ∀ o ∈ ops, o.WF) (hnz : ∀ o ∈ ops, TickNonzero o)
+    (h : Nat) (p b : Block)
+    (hp : (Ru.run env cfg Node.empty ops).led.blocks[h]? = some p)
+    (hb : (Ru.run env cfg Node.empty ops).led.blocks[h + 1]? = some b) :
+    ∀ t ∈ b.txs, t.hasReward = false → ∀ i ∈ t.inputs,
+      ∃ (q : Nat) (b' : Block) (t' : Tx) (o : Output), q ≤ h ∧
+        (Ru.run env cfg Node.empty ops).led.blocks[q]? = some b' ∧ t' ∈ b'.txs ∧ t'.id = i.txId ∧
+        UtxoReg.creates t' = true ∧ t'.outputs[i.index]? = some o ∧ o.address = i.address := by
+  obtain ⟨c, hc, hall⟩ := C03_chain env cfg hmin hinj ops hw hnz h p b hp hb
+  intro t ht hr i hi
+  obtain ⟨_, u, hl, hadr⟩ := hall t ht hr i hi
+  have hlive := (C02_lookup_iff_live c.utxos i u).mp hl
+  have key : ∀ k, k ≤ h + 1 → Conf.replay Conf.empty ((Ru.run env cfg Node.empty ops).led.blocks.take k) = .ok c →
+      ∃ (q : Nat) (b' : Block) (t' : Tx) (o : Output), q ≤ h ∧
+        (Ru.run env cfg Node.empty ops).led.blocks[q]? = some b' ∧ t' ∈ b'.txs ∧ t'.id = i.txId ∧
+        UtxoReg.creates t' = true ∧ t'.outputs[i.index]? = some o ∧ o.address = i.address := by
+    intro k hk hrk
+    obtain ⟨q, b', t', hq, ht', hid, hcr, o, ho, hu⟩ := C02_replay_live_provenance c _ hrk i.txId i.index u hlive
+    have hqk : q < k := by
+      have := (List.getElem?_eq_some_iff.mp hq).1
+      simp at this; omega
+    refine ⟨q, b', t', o, by omega, ?_, ht', hid, hcr, ho, ?_⟩
+    · rw [List.getElem?_take] at hq
+      simpa [hqk] using hq
+    · rw [hu] at hadr; exact hadr
+  rcases hc with hc | hc
+  · exact key h (by omega) hc
+  · exact key (h + 1) (Nat.le_refl _) hc
+
+/-- in the example chain the transaction of block 3 spends output 0 of the genesis reward `r0` of block 0 -/
+example : ∃ i ∈ C05ex.tx.inputs, i.txId = "r0" ∧ i.index = 0 := ⟨_, List.mem_cons_self, rfl, rfl⟩
+
+/-- the link between the state a block is judged against and the state it is replayed on: an output live right
+    BEFORE block `h+1` is applied (state `c'`, the replay of blocks `0..h`) under an id that block `h` does not
+    (re-)create is the very same output — same recipient, amount, yielding flag and creation time — in the state
+    below block `h` (state `c`, the lagged state of `verify` and of the producer) -/
+theorem C01_valued_is_consumed (bs : List Block) (h : Nat) (p : Block) (c c' : Conf)
+    (hp : bs[h]? = some p)
+    (hc : Conf.replay Conf.empty (bs.take h) = .ok c) (hc' : Conf.replay Conf.empty (bs.take (h + 1)) = .ok c')
+    (i : Input) (u : Utxo) (hnr : ∀ t' ∈ p.txs, t'.id ≠ i.txId)
+    (hl : UtxoReg.lookup c'.utxos.byId i = .ok u) : UtxoReg.lookup c.utxos.byId i = .ok u := by
+  rw [List.take_add_one, hp, Conf.replay_append, hc] at hc'
+  simp only [Option.toList_some, Conf.replay] at hc'
+  unfold Conf.step at hc'
+  cases hu : c.utxos.update p.txs p.ts with
+  | error e => rw [hu] at hc'; cases hc'
+  | ok u1 =>
+    rw [hu] at hc'
+    simp only [Except.ok.injEq] at hc'
+    subst hc'
+    obtain ⟨ha, _⟩ := UtxoReg.update_ok_iff.mp hu
+    rw [C02_lookup_iff_live] at hl ⊢
+    exact UtxoReg.applyTxs_live_back_other ha hnr hl
+
+/-- **C01 for every chain, outputs VALUED = outputs CONSUMED (partial: under no re-creation).**  For a block above
+    the first of a reachable chain and an ordinary transaction of it whose inputs are all live right before the block
+    is applied (true of every block that gets confirmed) and none of whose input ids is (re-)created by the previous
+    block: the outputs live at that moment under its references are worth, at the block's timestamp and in exact
+    arithmetic, at least what the transaction pays out plus the minimal fee.  Without the no-re-creation hypothesis
+    the statement is false of the code (`C01_chain_full`, known finding recreated-id). -/
+theorem C01_chain_consumed_partial (env : Env) (cfg : Cfg) (hmin : 1 ≤ cfg.minFee) (hinj : Function.Injective env.hash)
+    (ops : List Op) (hw : ∀ o ∈ ops, o.WF) (hnz : ∀ o ∈ ops, TickNonzero o)
+    (h : Nat) (p b : Block) (c' : Conf)
+    (hp : (Ru.run env cfg Node.empty ops).led.blocks[h]? = some p)
+    (hb : (Ru.run env cfg Node.empty ops).led.blocks[h + 1]? = some b)
+    (hc' : Conf.replay Conf.empty ((Ru.run env cfg Node.empty ops).led.blocks.take (h + 1)) = .ok c')
+    (t : Tx) (ht : t ∈ b.txs) (hr : t.hasReward = false)
+    (hlive : ∀ i ∈ t.inputs, ∃ u, UtxoReg.lookup c'.utxos.byId i = .ok u)
+    (hnr : ∀ i ∈ t.inputs, ∀ t' ∈ p.txs, t'.id ≠ i.txId) :
+    ∃ (us : List Utxo), t.inputs.map (UtxoReg.lookup c'.utxos.byId) = us.map Except.ok ∧
+      (t.outputs.map (·.value)).sum + cfg.minFee
+        ≤ (us.map (fun u => env.val u.out.value u.out.yielding (b.ts - u.created))).sum := by
+  obtain ⟨c, hc, _, hall⟩ := C01_chain_partial env cfg hmin hinj ops hw hnz h p b hp hb
+  obtain ⟨us, fee, _, hmap, _, _, hbound, _⟩ := hall t ht hr
+  refine ⟨us, ?_, hbound⟩
+  rcases hc with hc | hc
+  · -- judged against the lagged state: transfer every lookup
+    rw [← hmap]
+    apply List.map_congr_left
+    intro i hi
+    obtain ⟨u, hu⟩ := hlive i hi
+    rw [hu, C01_valued_is_consumed _ h p c c' hp hc hc' i u (hnr i hi) hu]
+  · -- judged against the very state the block is replayed on
+    rw [hc] at hc'
+    injection hc' with hc'
+    subst hc'
+    exact hmap
 
 end Ru
